@@ -646,6 +646,25 @@ class Interp:
             return out
         return self.symbolic_comprehension(node, g, it, fr)
 
+    def e_DictComp(self, node, fr):
+        """{k: v for x in <concrete iterable>}: built item by item (symbolic iterables are outside the subset)"""
+        if len(node.generators) != 1:
+            raise Unsupported('nested comprehension')
+        g = node.generators[0]
+        items = self.concrete_items(self.eval(g.iter, fr))
+        if items is None:
+            raise Unsupported('dict comprehension over a symbolic iterable')
+        out = {}
+        for x in items:
+            f2 = Frame(fr.fi, dict(fr.env), spec=fr.spec, ns=fr.ns)
+            self.assign(g.target, x, f2)
+            if all(self.branch(self.eval(c, f2)) for c in g.ifs):
+                k = self.eval(node.key, f2)
+                if is_symbolic(k):
+                    raise Unsupported('dict comprehension with a symbolic key')
+                out[k] = self.eval(node.value, f2)
+        return out
+
     def e_GeneratorExp(self, node, fr):
         """a generator expression handed straight to any/all/sum/min/max/sorted/join/list/set/tuple: evaluated like the list
         comprehension (the consumer sees the same items in the same order). Laziness is NOT modelled: if producing an item could
@@ -693,6 +712,13 @@ class Interp:
         if ek is None:
             raise Unsupported('filter comprehension element')
         vz = ops.char_code(v) if ek == 'char' else (ops.z3real(v) if ek == 'real' else ops.z3int(v))
+        if not is_symbolic(v) and ek in ('int', 'real'):
+            # [c for x in s if P(x)] with a constant c: the constant sequence of length count(P)
+            from .speclib import SumI
+            cntarr = LAM(j, z3.If(predz, z3.IntVal(1), z3.IntVal(0)))
+            n = SumI(cntarr, z3.IntVal(0), s.n)         # the predicate reads s through its own offset
+            self.assume(n >= 0)     # a count (lemma cnt_nonneg, proved by induction in contracts/lemmas.py)
+            return SSeq(z3.K(z3.IntSort(), vz), 0, n, 'list', ek)
         return self.filter_seq(s, j, predz, vz, ek)
 
     def in_spec_depth(self):
